@@ -8,6 +8,7 @@ ENUMB_CFG = "INIT EnumBInit\nNEXT EnumBNext\nCONSTANT L = 5\nCHECK_DEADLOCK FALS
 ENUMI_CFG = "INIT EnumIInit\nNEXT EnumINext\nCONSTRAINT EnumIEmit\nCONSTANT L = %d\nCHECK_DEADLOCK FALSE\n"
 ENUMC_CFG = "INIT EnumCInit\nNEXT EnumCNext\nCONSTRAINT EnumCEmit\nCONSTANT L = %d\nCHECK_DEADLOCK FALSE\n"
 ENUMP_CFG = "INIT EnumPInit\nNEXT EnumPNext\nCONSTRAINT EnumPEmit\nCONSTANT L = %d\nCHECK_DEADLOCK FALSE\n"
+ENUMD_CFG = "INIT EnumDInit\nNEXT EnumDNext\nCONSTRAINT EnumDEmit\nCONSTANT L = %d\nCHECK_DEADLOCK FALSE\n"
 JUDGE_CFG = "INIT JudgeInit\nNEXT JudgeNext\nCONSTANT L = 5\nCHECK_DEADLOCK FALSE\n"
 
 
@@ -150,6 +151,10 @@ def rnd_js(rng, depth, undef=True):
     return {"k": "obj", "p": ps}
 
 
+DECL_FORMS = ["var", "block", "deadblock", "forinit", "forin", "multi", "trycatch", "while", "switch", "labeled", "evalvar", "selfinit",
+              "other", "fnlocal", "fnparam", "typeof", "catchparam", "fndecl", "newfunc"]
+
+
 def round_trip(v):
     return [{"op": "set", "nm": "a", "v": v}, {"op": "jsview", "nm": "a"}, {"op": "get", "nm": "a"}, {"op": "evalname", "nm": "a"},
             {"op": "mutret", "nm": "a"}, {"op": "get", "nm": "a"}, {"op": "evalname", "nm": "a"},
@@ -204,6 +209,8 @@ def random_traces(rng, n):
                     evs.append({"op": "evalset", "nm": nm, "e": rnd_js(rng, 2)})
                 elif k < 0.9:
                     evs.append({"op": "mutpassed", "nm": nm})
+                elif k < 0.95:
+                    evs.append({"op": "evaldecl", "nm": nm, "form": rng.choice(DECL_FORMS)})
                 else:
                     evs.append({"op": "get", "nm": nm})
             out.append(evs)
@@ -277,6 +284,8 @@ def show_event(ev):
     if op == "evalcreate":
         return "evalcreate(%s = %sObject.create(proto, {%s}))" % (ev["nm"], "[..] of " if ev["wrap"] else "", ", ".join(
             "%s: %s" % (wire.from_units(d["n"]), "value " + wire.show(d["v"]) if d["act"] == "data" else d["act"]) for d in ev["descs"]))
+    if op == "evaldecl":
+        return "evaldecl[%s](%s)" % (ev["form"], ev["nm"])
     if op == "hostcall":
         return "hostcall[%s](%s) returning %s" % (ev["form"], ", ".join(wire.show(a) for a in ev["args"]), show_pw(ev["ret"]))
     return "%s(%s)" % (op, ev.get("nm", ""))
@@ -384,6 +393,29 @@ def run(rep):
                                 "data, getter, setter, getter+setter (Object.defineProperty and Object.defineProperties) on an existing "
                                 "data property and on a new name, then get / eval with aliasing probes (TLC-enumerated)" % pl,
                        "cases": len(traces) - n0, "complete": True})
+    # declaration histories: one name (unbound / set / bound by a script) x every sequence of L evals that declare or mention it
+    dplan = [("all", 1), ("sub", 2)] if rep.tier == "quick" else [("all", 2), ("sub", 3)]
+    n0, seen = len(traces), set()
+    for dforms, dl in dplan:
+        res = tlc.run(rep.pid, "C11", ENUMD_CFG % dl, env={"TIER": rep.tier, "DFORMS": dforms}, timeout=1500,
+                      tag="enumD_%s_%d" % (dforms, dl), heap="3g")
+        rep.add_tlc("C11.Enum(declaration histories,%s forms,L=%d)" % (dforms, dl), res)
+        for r in res.records:
+            if "t" in r:
+                k = json.dumps(r["t"], sort_keys=True, separators=(",", ":"))
+                if k not in seen:
+                    seen.add(k)
+                    traces.append(k)
+        del res
+    del seen
+    if len(traces) - n0 < 1500:
+        raise Machinery("declaration-history enumeration produced %d histories" % (len(traces) - n0))
+    rep.spaces.append({"space": "declaration histories: one name (not bound / bound by Context.set over 16 values / bound by a script over 13 "
+                                "values, every falsy value of every kind among them) x ALL sequences of exactly %d evals over 19 script forms "
+                                "and of exactly %d evals over 7 of them (program-level var without initialiser at the top level, in live and dead "
+                                "blocks, loop heads, switch, label, try, eval source; the name inside a function, as catch parameter, under "
+                                "typeof, another name), get + eval(name) after every step (TLC-enumerated)" % (dplan[0][1], dplan[1][1]),
+                       "cases": len(traces) - n0, "complete": True})
     ne = len(traces)
     rng = random.Random(rep.seed)
     nrand = 3000 if rep.tier == "quick" else 60000
@@ -443,8 +475,8 @@ def run(rep):
     rep.exhaustive = True
     rep.notes["events_judged"] = rep.evaluations
     rep.assumptions += ["text is compared as UTF-16 code units (a non-BMP character and its surrogate pair are the same text)",
-                        "a number may come back as Python int or float with the same value; an int that is not a double may "
-                        "come back exactly or as the nearest double",
+                        "a number may come back as Python int or float with the same value (exact comparison, as Python's ==: an int "
+                        "that is not a double must come back as that int)",
                         "non-string dict keys: Python str() or JSON spelling of True/False/None accepted; float keys not generated",
                         "README restriction: containers returned by exposed callables may arrive unconverted (accepted)",
                         "cyclic values are not JSON-like: their conversion belongs to C04 (host RecursionError), not generated here"]
